@@ -368,4 +368,330 @@ theorem walk_frame (h h' : Heap) (id : Nat) (hag : ∀ x, x ≠ id → h'[x]? = 
         | half n => simp [UnfJ] at hu
         | str s => simp [UnfJ] at hu
 
+mutual
+theorem unf_frame_gen (h h' : Heap) (id : Nat) (hag : ∀ x, x ≠ id → h'[x]? = h[x]?) : ∀ (j : J) (v : Val),
+    UnfJ h j v → id ∉ fpJ h j v → UnfJ h' j v ∧ fpJ h' j v = fpJ h j v
+  | .obj kvs, .ref rid, hu, hn => by
+    simp only [UnfJ] at hu
+    obtain ⟨es, h1, h2⟩ := hu
+    simp only [fpJ, h1, List.mem_cons, not_or] at hn
+    have hne : rid ≠ id := fun e => hn.1 e.symm
+    obtain ⟨q1, q2⟩ := unfKvs_frame_gen h h' id hag kvs es h2 hn.2
+    have hg : h'[rid]? = some (.dict es) := by rw [hag rid hne]; exact h1
+    exact ⟨by simp only [UnfJ]; exact ⟨es, hg, q1⟩, by simp only [fpJ, hg, h1, q2]⟩
+  | .arr ys, .ref rid, hu, hn => by
+    simp only [UnfJ] at hu
+    obtain ⟨xs, h1, h2⟩ := hu
+    simp only [fpJ, h1, List.mem_cons, not_or] at hn
+    have hne : rid ≠ id := fun e => hn.1 e.symm
+    obtain ⟨q1, q2⟩ := unfList_frame_gen h h' id hag ys xs h2 hn.2
+    have hg : h'[rid]? = some (.list xs) := by rw [hag rid hne]; exact h1
+    exact ⟨by simp only [UnfJ]; exact ⟨xs, hg, q1⟩, by simp only [fpJ, hg, h1, q2]⟩
+  | .obj _, .atom _, hu, _ => by simp [UnfJ] at hu
+  | .arr _, .atom _, hu, _ => by simp [UnfJ] at hu
+  | .null, v, hu, _ => ⟨by simpa [UnfJ] using hu, by simp [fpJ]⟩
+  | .bool _, v, hu, _ => ⟨by simpa [UnfJ] using hu, by simp [fpJ]⟩
+  | .int _, v, hu, _ => ⟨by simpa [UnfJ] using hu, by simp [fpJ]⟩
+  | .half _, v, hu, _ => ⟨by simpa [UnfJ] using hu, by simp [fpJ]⟩
+  | .str _, v, hu, _ => ⟨by simpa [UnfJ] using hu, by simp [fpJ]⟩
+theorem unfKvs_frame_gen (h h' : Heap) (id : Nat) (hag : ∀ x, x ≠ id → h'[x]? = h[x]?) :
+    ∀ (kvs : List (String × J)) (es : List (String × Val)), UnfKvsJ h kvs es → id ∉ fpKvs h kvs es →
+    UnfKvsJ h' kvs es ∧ fpKvs h' kvs es = fpKvs h kvs es
+  | [], [], _, _ => by simp [UnfKvsJ, fpKvs]
+  | (k, j) :: kvs, (k', v) :: es, hu, hn => by
+    simp only [UnfKvsJ] at hu
+    simp only [fpKvs, List.mem_append, not_or] at hn
+    obtain ⟨q1, q2⟩ := unf_frame_gen h h' id hag j v hu.2.1 hn.1
+    obtain ⟨q3, q4⟩ := unfKvs_frame_gen h h' id hag kvs es hu.2.2 hn.2
+    exact ⟨by simp only [UnfKvsJ]; exact ⟨hu.1, q1, q3⟩, by simp only [fpKvs, q2, q4]⟩
+  | [], _ :: _, hu, _ => by simp [UnfKvsJ] at hu
+  | _ :: _, [], hu, _ => by simp [UnfKvsJ] at hu
+theorem unfList_frame_gen (h h' : Heap) (id : Nat) (hag : ∀ x, x ≠ id → h'[x]? = h[x]?) :
+    ∀ (ys : List J) (xs : List Val), UnfListJ h ys xs → id ∉ fpList h ys xs →
+    UnfListJ h' ys xs ∧ fpList h' ys xs = fpList h ys xs
+  | [], [], _, _ => by simp [UnfListJ, fpList]
+  | j :: ys, v :: xs, hu, hn => by
+    simp only [UnfListJ] at hu
+    simp only [fpList, List.mem_append, not_or] at hn
+    obtain ⟨q1, q2⟩ := unf_frame_gen h h' id hag j v hu.1 hn.1
+    obtain ⟨q3, q4⟩ := unfList_frame_gen h h' id hag ys xs hu.2 hn.2
+    exact ⟨by simp only [UnfListJ]; exact ⟨q1, q3⟩, by simp only [fpList, q2, q4]⟩
+  | [], _ :: _, hu, _ => by simp [UnfListJ] at hu
+  | _ :: _, [], hu, _ => by simp [UnfListJ] at hu
+end
+
+/-! ### searching a path of keys and indices in the store -/
+
+theorem nameSteps_rel (h : Heap) : ∀ (names : List Name),
+    LRel (StepRel (Unf h)) (names.map nameStepV) (names.map nameStep)
+  | [] => .nil
+  | nm :: rest => by
+    cases nm with
+    | key k => exact .cons (.key k) (nameSteps_rel h rest)
+    | idx i => exact .cons (.idx i) (nameSteps_rel h rest)
+
+theorem nameSteps_clean (names : List Name) : PredsClean (names.map nameStep).toArray := by
+  intro s hs f hf
+  simp only [List.toList_toArray, List.mem_map] at hs
+  obtain ⟨nm, _, rfl⟩ := hs
+  cases nm <;> simp [nameStep] at hf
+
+/-- found: the match sits at exactly those names, and the tree has that location -/
+theorem getMatch_names_found (h : Heap) (root : Val) (j : J) (names : List Name) (pm : MNode Val) (hu : UnfJ h j root)
+    (hg : getMatch (wcx h) (names.map nameStepV).toArray (.doc root) true = .ok (some pm)) :
+    pm.loc = names ∧ ∃ d, walk J.view j names = some d := by
+  obtain ⟨pm', hrel, hhead⟩ := getMatch_heap_found h root j hu (names.map nameStepV).toArray (names.map nameStep).toArray
+    (by simpa using nameSteps_rel h names) (nameSteps_clean names) true pm hg
+  obtain ⟨e1, e2⟩ := evalE_names names (.root j)
+  simp only [List.toList_toArray] at hhead
+  cases hw : walk J.view j names with
+  | none =>
+    have := e2 (by simpa [MNode.data] using hw)
+    rw [this] at hhead; simp at hhead
+  | some d =>
+    obtain ⟨m, q1, q2, _⟩ := e1 d (by simpa [MNode.data] using hw)
+    rw [q1] at hhead
+    simp only [List.head?_cons, Option.some.injEq] at hhead
+    subst hhead
+    exact ⟨by rw [hrel.loc, q2]; simp [MNode.loc], d, rfl⟩
+
+/-- not found: the tree has no such location -/
+theorem getMatch_names_notfound (h : Heap) (root : Val) (j : J) (names : List Name) (hu : UnfJ h j root)
+    (hg : getMatch (wcx h) (names.map nameStepV).toArray (.doc root) true = .error .matchNotFound) :
+    walk J.view j names = none := by
+  have hev := getMatch_heap_notfound h root j hu (names.map nameStepV).toArray (names.map nameStep).toArray
+    (by simpa using nameSteps_rel h names) (nameSteps_clean names) true (.inr hg)
+  obtain ⟨e1, _⟩ := evalE_names names (.root j)
+  simp only [List.toList_toArray] at hev
+  cases hw : walk J.view j names with
+  | none => rfl
+  | some d =>
+    obtain ⟨m, q1, _⟩ := e1 d (by simpa [MNode.data] using hw)
+    rw [q1] at hev; simp at hev
+
+/-! ### the refinement -/
+
+theorem singleOf_name (view : Val → View Val) (nm : Name) (n : MNode Val) (d : Val)
+    (h : singleOf view (nameStepV nm) n = some (.child n nm d)) : childAt (view n.data) nm = some d := by
+  cases nm with
+  | key k =>
+    simp only [nameStepV, singleOf] at h
+    split at h
+    · rename_i es hv
+      cases hl : es.lookup k with
+      | none => simp [hl] at h
+      | some x => simp only [hl, Option.map_some, Option.some.injEq, MNode.child.injEq, true_and] at h; simp [childAt, hv, hl, h]
+    · simp at h
+  | idx i =>
+    simp only [nameStepV, singleOf] at h
+    split at h
+    · rename_i xs hv
+      cases hl : getPy? xs i with
+      | none => simp [hl] at h
+      | some x => simp only [hl, Option.map_some, Option.some.injEq, MNode.child.injEq, true_and] at h; simp [childAt, hv, hl, h]
+    · simp at h
+
+/-- what a (cascading) assignment leaves behind -/
+structure CascadeOut (root : Val) (h h' : Heap) (j j' jv : J) (v : Val) (m : MNode Val) (loc : List Name) : Prop where
+  inv : DocInv h' root j'
+  walk : walk (hview h') root m.loc = some m.data
+  loc : m.loc = loc
+  data : m.data = v
+  bound : ∀ x ∈ fpJ h' j' root, x ∈ fpJ h j root ∨ x ∈ fpJ h jv v ∨ h.size ≤ x
+  size : h.size ≤ h'.size
+  frame : ∀ jw w, UnfJ h jw w → (∀ x ∈ fpJ h jw w, x ∉ fpJ h j root ∧ x ∉ fpJ h jv v) →
+    UnfJ h' jw w ∧ fpJ h' jw w = fpJ h jw w
+
+/-- one `vertex.set` at a located parent match -/
+theorem vertexSet_out (root : Val) (h h' : Heap) (s : Step Val) (pm m : MNode Val) (v : Val) (j jv : J)
+    (hi : DocInv h root j) (hv : UnfJ h jv v) (hvn : (fpJ h jv v).Nodup) (hfresh : ∀ x ∈ fpJ h jv v, x ∉ fpJ h j root)
+    (hloc : walk (hview h) root pm.loc = some pm.data)
+    (hs : vertexSet h s pm v = .ok (h', m)) :
+    ∃ nm j', s = nameStepV nm ∧ J.setAt j pm.loc nm jv = some j' ∧ CascadeOut root h h' j j' jv v m (pm.loc ++ [nm]) := by
+  obtain ⟨nm, j', e0, e1, e2, e3, e4, e5⟩ := vertexSet_refold h h' s pm m v root j jv hs hi.unf hi.sep hv hvn hfresh hloc
+  obtain ⟨id, _, hpd, _, hsz, hag⟩ := vertexSet_frame h h' s pm m v hs
+  have hrb := vertexSet_reads_back h h' s pm m v hs
+  rw [e0, e1] at hrb
+  have hchild := singleOf_name (hview h') nm pm v hrb
+  rw [hpd] at hloc
+  have hidroot := walk_mem_fp h id pm.loc root j hi.unf hloc
+  have hw' := walk_frame h h' id hag pm.loc root j hi.unf hi.sep hloc
+  refine ⟨nm, j', e0, e2, ⟨⟨e3, e4, vertexSet_wf hi.wf s pm m v hs⟩, ?_, by rw [e1]; rfl, by rw [e1]; rfl, ?_, by omega, ?_⟩⟩
+  · rw [e1]
+    simp only [MNode.loc, MNode.data, walk_append, hw', Option.bind_some, walk]
+    rw [← hpd, hchild]
+  · intro x hx
+    rcases e5 x hx with h1 | h1
+    · exact .inl h1
+    · exact .inr (.inl h1)
+  · intro jw w huw hdis
+    exact unf_frame_gen h h' id hag jw w huw (fun hm => (hdis id hm).1 hidroot)
+
+theorem take_succ_of_get {β} (l : List β) (n : Nat) (x : β) (h : l[n]? = some x) : l.take (n+1) = l.take n ++ [x] := by
+  rw [List.take_succ, h]; rfl
+
+/-- the container object `default_value_for_set` allocates in front of a name -/
+def defObj : Name → Obj
+  | .key _ => .dict []
+  | .idx _ => .list []
+
+theorem defaultValueFor_name (h : Heap) (nm : Name) :
+    defaultValueFor h (nameStepV nm) = (h.push (defObj nm), .ref h.size) := by
+  cases nm <;> rfl
+
+theorem getMatch_doc_notfound {α : Type} (cx : Ctx α) (steps : Array (Step α)) (d : α) (mm : Bool) (e : ApiErr)
+    (hg : getMatch cx steps (.doc d) mm = .error e) (hnf : isNotFound e = true) : e = .matchNotFound := by
+  cases e <;> simp [isNotFound] at hnf
+  · rfl
+  · exfalso
+    simp only [getMatch] at hg
+    split at hg
+    · simp at hg
+    · split at hg
+      · simp [Src.isNested] at hg
+      · simp at hg
+    · simp at hg
+    · simp at hg
+
+/-- **cascade on the tree**: a successful `set_match(p, v, doc, cascade=True)` along a path of
+keys and indices makes the document — a tree `j` (`DocInv`) — unfold to `J.cascadeAt j p jv`:
+existing levels reused, each missing level an empty dict (before a key) or list (before an
+index), the value at the end; the result is again such a tree. -/
+theorem cascade_refines (root : Val) (names : List Name) : ∀ (n : Nat) (h h' : Heap) (v : Val) (m : MNode Val) (j jv : J),
+    n ≤ names.length → DocInv h root j → UnfJ h jv v → (fpJ h jv v).Nodup → (∀ x ∈ fpJ h jv v, x ∉ fpJ h j root) →
+    setMatchN (fun _ => names.map nameStepV) (.doc root) true n h v = (h', .ok m) →
+    ∃ j', J.cascadeAt j (names.take n) jv = some j' ∧ CascadeOut root h h' j j' jv v m (names.take n) := by
+  intro n
+  induction n with
+  | zero => intro h h' v m j jv _ _ _ _ _ hset; simp [setMatchN] at hset
+  | succ n ih =>
+    intro h h' v m j jv hn hi hv hvn hfresh hset
+    simp only [setMatchN] at hset
+    have hlast : ∃ nmL, names[n]? = some nmL := by
+      cases hx : names[n]? with
+      | none => have := List.getElem?_eq_none_iff.mp hx; omega
+      | some x => exact ⟨x, rfl⟩
+    obtain ⟨nmL, hnm⟩ := hlast
+    have hstep : (names.map nameStepV)[n]? = some (nameStepV nmL) := by simp [hnm]
+    have htake : (names.map nameStepV).take n = (names.take n).map nameStepV := by simp [List.map_take]
+    have htk := take_succ_of_get names n nmL hnm
+    simp only [hstep, htake] at hset
+    split at hset
+    · -- the parent path has a match: plain assignment
+      rename_i pm hg
+      split at hset
+      · rename_i h2 m2 hvs
+        simp only [Prod.mk.injEq, Except.ok.injEq] at hset
+        obtain ⟨rfl, rfl⟩ := hset
+        obtain ⟨hploc, d, hwj⟩ := getMatch_names_found h root j (names.take n) pm hi.unf hg
+        have hgen := getMatch_gen (wcx h) (heapwf_keysUniq hi.wf) _ root true pm hg
+        have hw := gen_walk (hview h) root pm hgen
+        obtain ⟨nm, j', e0, e1, out⟩ := vertexSet_out root h h2 _ pm m2 v j jv hi hv hvn hfresh hw hvs
+        have hnmeq : nm = nmL := by cases nm <;> cases nmL <;> simp_all [nameStepV]
+        subst hnmeq
+        refine ⟨j', ?_, ?_⟩
+        · rw [htk, cascade_snoc_found (names.take n) j nm jv d hwj, ← hploc]; exact e1
+        · rw [htk, ← hploc]; exact out
+      · simp at hset
+    · simp at hset
+    · -- no match
+      rename_i e hg
+      split at hset
+      · rename_i hnf
+        simp only [if_true] at hset
+        -- the error is MatchNotFoundError: the tree has no such location, and the path is not empty
+        have hnf' : getMatch (wcx h) ((names.take n).map nameStepV).toArray (.doc root) true = .error .matchNotFound := by
+          rw [hg, getMatch_doc_notfound _ _ _ _ e hg hnf]
+        have hwj := getMatch_names_notfound h root j (names.take n) hi.unf hnf'
+        have hne : names.take n ≠ [] := by
+          intro he
+          rw [he] at hwj
+          simp [walk] at hwj
+        -- allocate the default container
+        rw [defaultValueFor_name] at hset
+        simp only at hset
+        have hext : Ext h (h.push (defObj nmL)) := ext_push _ _
+        have hi1 : DocInv (h.push (defObj nmL)) root j :=
+          ⟨unf_mono _ _ hext j root hi.unf, by rw [fp_ext _ _ hext j root hi.unf]; exact hi.sep,
+           heapwf_push hi.wf _ (fun es he => by cases nmL <;> simp [defObj] at he; subst he; simp)⟩
+        have hfpr := fp_ext _ _ hext j root hi.unf
+        have hdvu : UnfJ (h.push (defObj nmL)) (emptyFor nmL) (.ref h.size) := by
+          cases nmL <;> simp [emptyFor, defObj, UnfJ, UnfKvsJ, UnfListJ]
+        have hdvf : fpJ (h.push (defObj nmL)) (emptyFor nmL) (.ref h.size) = [h.size] := by
+          cases nmL <;> simp [emptyFor, defObj, fpJ, fpKvs, fpList]
+        rcases hrec : setMatchN (fun _ => names.map nameStepV) (.doc root) true n
+            (h.push (defObj nmL)) (.ref h.size) with ⟨h2, r2⟩
+        rw [hrec] at hset
+        cases r2 with
+        | error e2 => simp at hset
+        | ok pm =>
+          simp only at hset
+          split at hset
+          · rename_i h3 m3 hvs
+            simp only [Prod.mk.injEq, Except.ok.injEq] at hset
+            obtain ⟨rfl, rfl⟩ := hset
+            obtain ⟨j1, c1, out1⟩ := ih _ h2 (.ref h.size) pm j (emptyFor nmL) (by omega) hi1 hdvu (by rw [hdvf]; simp)
+              (by
+                intro x hx hm
+                rw [hdvf] at hx
+                simp only [List.mem_singleton] at hx
+                subst hx
+                rw [hfpr] at hm
+                exact Nat.lt_irrefl _ (fp_lt h j root hi.unf _ hm)) hrec
+            -- the value, seen from the store after the recursive call
+            have hv1 := unf_mono _ _ hext jv v hv
+            have hfv1 := fp_ext _ _ hext jv v hv
+            have hvlt : ∀ x ∈ fpJ h jv v, x < h.size := fp_lt h jv v hv
+            obtain ⟨hv2, hfv2⟩ := out1.frame jv v hv1 (by
+              intro x hx
+              rw [hfv1] at hx
+              refine ⟨by rw [hfpr]; exact hfresh x hx, ?_⟩
+              rw [hdvf]; simp only [List.mem_singleton]
+              exact Nat.ne_of_lt (hvlt x hx))
+            have hfresh2 : ∀ x ∈ fpJ h2 jv v, x ∉ fpJ h2 j1 root := by
+              intro x hx hm
+              rw [hfv2, hfv1] at hx
+              rcases out1.bound x hm with b | b | b
+              · rw [hfpr] at b; exact hfresh x hx b
+              · rw [hdvf] at b; simp only [List.mem_singleton] at b; exact Nat.ne_of_lt (hvlt x hx) b
+              · simp only [Array.size_push] at b; have := hvlt x hx; omega
+            obtain ⟨nm, j', e0, e1, out⟩ := vertexSet_out root h2 h3 _ pm m3 v j1 jv out1.inv hv2
+              (by rw [hfv2, hfv1]; exact hvn) hfresh2 out1.walk hvs
+            have hnmeq : nm = nmL := by cases nm <;> cases nmL <;> simp_all [nameStepV]
+            subst hnmeq
+            refine ⟨j', ?_, ⟨out.inv, out.walk, by rw [htk, out.loc, out1.loc], out.data, ?_, ?_, ?_⟩⟩
+            · rw [htk, cascade_snoc_missing (names.take n) j nm jv hne hwj, c1]
+              simp only [Option.bind_some]
+              rw [← out1.loc]; exact e1
+            · intro x hx
+              rcases out.bound x hx with b | b | b
+              · rcases out1.bound x b with b1 | b1 | b1
+                · left; rw [hfpr] at b1; exact b1
+                · right; right; rw [hdvf] at b1; simp only [List.mem_singleton] at b1; omega
+                · right; right; simp only [Array.size_push] at b1; omega
+              · right; left; rw [hfv2, hfv1] at b; exact b
+              · right; right; have := out1.size; simp only [Array.size_push] at this; omega
+            · have := out1.size; have := out.size; simp only [Array.size_push] at *; omega
+            · intro jw w huw hdis
+              have hw1 := unf_mono _ _ hext jw w huw
+              have hfw1 := fp_ext _ _ hext jw w huw
+              have hwlt : ∀ x ∈ fpJ h jw w, x < h.size := fp_lt h jw w huw
+              obtain ⟨hw2, hfw2⟩ := out1.frame jw w hw1 (by
+                intro x hx
+                rw [hfw1] at hx
+                refine ⟨by rw [hfpr]; exact (hdis x hx).1, ?_⟩
+                rw [hdvf]; simp only [List.mem_singleton]
+                exact Nat.ne_of_lt (hwlt x hx))
+              obtain ⟨hw3, hfw3⟩ := out.frame jw w hw2 (by
+                intro x hx
+                rw [hfw2, hfw1] at hx
+                refine ⟨fun hm => ?_, by rw [hfv2, hfv1]; exact (hdis x hx).2⟩
+                rcases out1.bound x hm with b | b | b
+                · rw [hfpr] at b; exact (hdis x hx).1 b
+                · rw [hdvf] at b; simp only [List.mem_singleton] at b; exact Nat.ne_of_lt (hwlt x hx) b
+                · simp only [Array.size_push] at b; have := hwlt x hx; omega)
+              exact ⟨hw3, by rw [hfw3, hfw2, hfw1]⟩
+          · simp at hset
+      · simp at hset
+
 end Treepath
